@@ -200,6 +200,190 @@ def rule_address_bytes(ctx, chk, suf):
     return len(texts)
 
 
+def sample_family():
+    """URI references covering every combination of component shapes (multi-character, empty, absent)"""
+    schemes = [None, 's', 'ab+c']
+    auths = [None, 'h', '', 'u@h', 'u:p@h', 'h:8', 'h:', 'u@h:80', '[::1]', 'u@[1:2::3]', '[v1.a]:9', '1.2.3.4', 'u@', '@h', 'a.b:0']
+    paths = ['', '/', '/a', '/ab/c', 'a', 'ab/c', 'a/', '//x', './a', '/a//b/', 'a:b', '%41b/c']
+    queries = [None, '', 'q=1', 'a/b?c']
+    frags = [None, '', 'fr', 'x?y/z']
+    out = []
+    for sc in schemes:
+        for au in auths:
+            for pa in paths:
+                if au is not None and pa and not pa.startswith('/'):
+                    continue
+                if au is None and pa.startswith('//'):
+                    continue
+                if sc is None and au is None and ':' in pa.split('/')[0]:
+                    continue
+                for q in queries:
+                    for fr in frags:
+                        if (q and fr and len(q) > 1 and len(fr) > 2):
+                            continue
+                        t = ''
+                        if sc is not None:
+                            t += sc + ':'
+                        if au is not None:
+                            t += '//' + au
+                        t += pa
+                        if q is not None:
+                            t += '?' + q
+                        if fr is not None:
+                            t += '#' + fr
+                        out.append(t)
+    return sorted(set(out))
+
+
+def spec_positions(t, pdfas):
+    """position of every boundary according to the pebbled automata (None = component absent); segments: sets"""
+    from ..e1monitor import BOUNDARIES
+    res = {}
+    for (name, _p, _tag, _e, multi), d in zip(BOUNDARIES, pdfas):
+        cls = [d.class_of[ord(ch)] for ch in t]
+        pos = []
+        for p in list(range(len(t) + 1)) + [None]:
+            q = 0
+            for i, c in enumerate(cls):
+                q = d.trans[q][c * 2 + (1 if i == p else 0)]
+            if (q in d.accept_end) if p == len(t) else (q in d.accept):
+                pos.append(p)
+        if multi:
+            res[name] = set(x for x in pos if x is not None)
+        else:
+            if len(pos) != 1:
+                raise AnalysisBroken('pebbled automaton for %s gives positions %r on %r' % (name, pos, t))
+            res[name] = pos[0]
+    return res
+
+
+def rule_boundary_samples(ctx, chk, suf):
+    from ..abnf import pebble_dfa, rfc3986_dfa
+    from ..e1monitor import BOUNDARIES
+    pdfas = [pebble_dfa(tag, end, multi) for (_n, _p, tag, end, multi) in BOUNDARIES]
+    dfa, _info = rfc3986_dfa()
+    fname = 'uriParseSingleUriExMm' + suf
+    conc = Concrete(ctx, suf, fname)
+    floc = ctx.irp.funcs[fname].loc
+    n = 0
+    for t in sample_family():
+        if not dfa.accepts([ord(c) for c in t]):
+            continue
+        n += 1
+        spec = spec_positions(t, pdfas)
+        r, env = conc.call([('a', URI, ()), ('p', -len(t)), END, ('a', ERRPOS, ()), MEM], [ord(x) for x in t])
+        L = len(t)
+
+        def pos(v):
+            if v is None or v == NULL:
+                return None
+            if v == END:
+                return L
+            if v[0] == 'p':
+                return L + v[1]
+            if v == SAFE:
+                return 'placeholder'
+            return ('?', v)
+        probs = []
+        if r != ('i', 0):
+            probs.append('parser returns %r' % (r,))
+        for (name, path, _tag, _e, multi) in BOUNDARIES:
+            if multi:
+                continue
+            got = pos(env.get((URI, path)))
+            want = spec[name]
+            if got == 'placeholder':
+                other = spec[name.split('.')[0] + ('.afterLast' if name.endswith('first') else '.first')]
+                if want is None or other != want:
+                    probs.append('%s is the placeholder but the component is %s' % (name, 'absent' if want is None else 'not empty'))
+            elif got != want:
+                probs.append('%s reported at %r, grammar says %r' % (name, got, want))
+        # segments
+        segs = []
+        node = env.get((URI, ('pathHead',)))
+        guard = 0
+        last = None
+        while node and node != NULL and node[0] == 'a' and guard < 50:
+            a, b = pos(env.get((node[1], ('text', 'first')))), pos(env.get((node[1], ('text', 'afterLast'))))
+            segs.append((a, b))
+            last = node
+            node = env.get((node[1], ('next',)), NULL)
+            guard += 1
+        firsts = set(a for a, b in segs if a != 'placeholder')
+        lasts = set(b for a, b in segs if b != 'placeholder')
+        if firsts != spec['segment.first'] or lasts != spec['segment.afterLast']:
+            probs.append('non-empty segments reported at %r, grammar says begins %r ends %r'
+                         % (sorted(x for x in segs if x[0] != 'placeholder'), sorted(spec['segment.first']),
+                            sorted(spec['segment.afterLast'])))
+        if any((a == 'placeholder') != (b == 'placeholder') or (a != 'placeholder' and not (a < b)) for a, b in segs):
+            probs.append('segment with one placeholder end or an empty non-placeholder range: %r' % (segs,))
+        tail = env.get((URI, ('pathTail',)))
+        if (last is None) != (tail in (None, NULL)) or (last is not None and tail != last):
+            probs.append('pathTail is not the last node of the list')
+        chk.add('boundary-samples', 'sample:%s:%s' % (suf, t) if not probs else 'sample:%s' % probs[0][:80], not probs, floc,
+                '%r: %s' % (t, '; '.join(probs) if probs else 'all 12 range ends and %d segments at the grammar positions' % len(segs)),
+                func=fname)
+    return n
+
+
+def pebble_jobs(sufs):
+    from ..e1monitor import BOUNDARIES
+    return [(s, 'single-mm', 'peb:%d' % k) for s in sufs for k in range(len(BOUNDARIES))]
+
+
+def rule_pebbles(ctx, chk, sufs):
+    """exact boundaries for ALL inputs: one exploration per boundary, in product with its pebbled automaton"""
+    from ..e1monitor import BOUNDARIES
+    from ..e1results import get
+    import os
+    os.environ['E1_WORKERS'] = '12'
+    stats = {}
+    for (suf, entry, mk) in pebble_jobs(sufs):
+        r = get(ctx, suf, entry, mk)
+        k = int(mk.split(':')[1])
+        name, path, _tag, _e, multi = BOUNDARIES[k]
+        floc = ctx.irp.funcs[r['function']].loc
+        stats['%s/%s' % (r['function'], name)] = {'abstract_states': r['states'], 'final_configurations': len(r['finals']),
+                                                  'wall_s': round(r['wall'], 1), 'cache': r['cache']}
+        for f in r['findings']:
+            chk.bad('boundary-exact', 'e1:%s:%s' % (f['rule'], f['key']), f['loc'], '%s; input %r %s' % (f['detail'], f['witness'], f['notes']),
+                    func=r['function'])
+        nob = 0
+        for f in r['finals']:
+            pv = f['peb']
+            if f['oom'] or f['ret'] != ('i', 0) or pv is None or pv['spec'] is None:
+                continue
+            placed = pv['pa'] not in (None, 'none')
+            acc = pv['spec'][0]
+            if not acc:
+                continue
+            nob += 1
+            if multi:
+                at = (pv['segb'] if name.endswith('first') else pv['sege']) == 1
+                ok = at if placed else True
+                val = 'a segment %s at the pebble: %s' % ('begins' if name.endswith('first') else 'ends', at)
+            else:
+                v = f['regs'].get(path)
+                if placed:
+                    ok = (v is not None and v[0] == 'pin' and v[1] is True) or (v == SAFE and path[0] == 'hostText')
+                else:
+                    ok = v == NULL
+                val = 'register holds %r' % (v,)
+            key = 'boundary:%s:%s:q%d:%s' % (suf, name, f['m'][0], 'at' if placed else 'absent')
+            if ok:
+                chk.ok('boundary-exact', key, floc, '%s; grammar: %s' % (val, 'boundary at the pebble' if placed else 'component absent'),
+                       func=r['function'])
+            else:
+                text, notes = witness_of(r, f['nid'])
+                chk.bad('boundary-exact', 'boundary:%s:%s' % (name, 'misplaced' if placed else 'present-but-absent'), floc,
+                        '%s: the grammar puts %s %s but %s; shortest input: %r %s'
+                        % (r['function'], name, 'at the pebbled position' if placed else 'nowhere (component absent)', val, text,
+                           ' '.join(notes)), func=r['function'])
+        if nob < 20:
+            raise AnalysisBroken('pebble run for %s produced only %d obligations' % (name, nob))
+    chk.analysed['pebble_explorations'] = stats
+
+
 def run(ctx, chk):
     chk.explanation = ('(1) For ALL inputs: the E1 exploration of the parser source runs in product with indicator automata compiled from '
                        'the ABNF (URI vs relative-ref, authority, user info, port, query, fragment present; host kind IPv6 / IPvFuture / '
@@ -227,13 +411,23 @@ def run(ctx, chk):
                        'parser is evaluated from source on every IPv6 shape (groups before / after "::", with and without IPv4 '
                        'tail), on every hex digit in every position of a group, and on all 256 octet values (IPv4 host and embedded '
                        'IPv4), compared with the value written. (4) The segment push appends a zero-initialised node, makes it the '
-                       'tail, stores exactly the range passed in (placeholder for an empty one). NOT decided in this tier: the exact '
-                       'position of each range boundary inside the text.')
+                       'tail, stores exactly the range passed in (placeholder for an empty one). (5) Exact boundaries: quick tier - the parser '
+                       'is evaluated from source on a family of references covering every combination of component shapes and each of '
+                       'the 12 range ends, every segment and the tail is compared with the position the pebbled automata (ABNF with the '
+                       'rule occurrence tagged) assign; thorough tier - for ALL inputs, one exploration per boundary in product with its '
+                       'pebbled automaton: whenever the grammar puts the boundary at the pebbled position the register is exactly there.')
     chk.rule('component-presence', 'accepting final configuration: ranges paired, present iff the grammar has the component, host kind '
              'blocks, absolute-path flag, segment list, owner - all equal to the indicator automata', floor=500)
     chk.rule('ip4-classification', 'IPv4 recogniser language = IPv4address; called on exactly the host range; block kept iff success', floor=8)
     chk.rule('address-bytes', 'stored IPv4 / IPv6 bytes equal the value written, for every literal shape and every digit / octet value',
              floor=600)
+    chk.rule('boundary-samples', 'parser evaluated from source on a family of references covering every combination of component shapes: '
+             'all 12 range ends, every segment and the tail sit exactly where the pebbled automata (compiled from the ABNF) put them',
+             floor=1000)
+    if chk.tier == 'thorough':
+        chk.rule('boundary-exact', 'for ALL inputs: exploration in product with the pebbled automaton of each boundary - whenever the '
+                 'grammar puts the boundary at the pebbled position the register (or a pushed segment) is exactly there; absent '
+                 'component <=> NULL', floor=500)
     chk.rule('push-shape', 'the segment push appends a fresh zeroed node as the new tail with exactly the range passed in', floor=4)
     sufs = ('A', 'W')
     jobs = [(s, 'single-mm', 'cls') for s in sufs] + [(s, 'ip4', 'dfa') for s in sufs]
@@ -275,6 +469,12 @@ def run(ctx, chk):
     shapes = 0
     for suf in (sufs if chk.tier == 'thorough' else ('A',)):
         shapes = rule_address_bytes(ctx, chk, suf)
+    nsamp = 0
+    for suf in (sufs if chk.tier == 'thorough' else ('A',)):
+        nsamp = rule_boundary_samples(ctx, chk, suf)
+    chk.analysed['boundary_sample_inputs'] = nsamp
+    if chk.tier == 'thorough':
+        rule_pebbles(ctx, chk, ('A',))
     chk.analysed['explorations'] = stats
     chk.analysed['ipv6_shapes'] = shapes
     chk.assumptions += ['ABNF transcription uv/rfc3986.abnf and the indicator grammars derived from it by restricting alternatives '
